@@ -333,7 +333,7 @@ PROPS["C02"] = {
     "judge2": judge2_c02,
     "modules": ["Gmsm.Props.C02", "Gmsm.Props.SM2Group", "Gmsm.Props.C14Codec", "Gmsm.Props.C02Asn1"],
     "theorems": [
-        "Props.C02Asn1.cipherUnmarshal_sound",
+        "Props.C02Asn1.cipherUnmarshal_sound", "Props.C02.decrypt_rejects_format",
         "Props.C02.decrypt_rejects_short", "Props.C02.decrypt_rejects_offcurve", "Props.C02.decrypt_accepts_hash",
         "Props.C02.altered_implies_collision", "Props.C02.kdf_length", "Props.C02.encrypt_empty_none", "Props.SM2Group.decrypt_encrypt", "Props.SM2Group.decrypt_encrypt_gen", "Props.SM2Group.smul_smul_comm", "Proofs.SM2Affine.padd_eq", "Proofs.SM2Affine.smul_eq", "Props.C14Codec.cipher_asn1_roundtrip",
     ],
